@@ -252,7 +252,7 @@ def main(argv):
     rep.coverage.update({
         'evaluations': len(cases),
         'distinct_nontrivial': len({vlib.case_hash(strip(c)) for c in cases if nontrivial(c)}),
-        'rule': 'word cases: encodings of generated descriptions (all 13 supported formats, every operand class, literal or second dword '
+        'rule': 'word cases: a deterministic core (every special operand code - literal 255, SDWA 249, DPP 250, inline-constant edges, first/last SGPR/VGPR, special and reserved codes - in every operand-code field of every format under real opcodes; one valid description per table row) plus encodings of generated descriptions (all 13 supported formats, every operand class, literal or second dword '
                 'at the very end of the buffer or followed by other bytes), hostile field values, truncated encodings, uniformly random '
                 'words, random fields under a real encoding+opcode, 1-3 bit flips of valid encodings, buffers of 0-7 bytes, and distinct '
                 'instruction words of the shipped kernels; kernel cases: sequential decode of every kernel of every shipped .hsaco. '
